@@ -100,6 +100,10 @@ func (t *ImmutableTree) VerifyNonMembership(proof *ics23.CommitmentProof, key []
 func (t *ImmutableTree) createExistenceProof(key []byte) (*ics23.ExistenceProof, error) {
 	t.Hash()
 	path, node, err := t.root.PathToLeaf(t, key, t.nextVersion())
+	if err != nil {
+		// the key does not exist, or a node on the path could not be read
+		return nil, err
+	}
 	nodeVersion := t.nextVersion()
 	if node.nodeKey != nil {
 		nodeVersion = node.nodeKey.version
